@@ -113,4 +113,33 @@ theorem grouping_reassembly {lsa : Lsa K} {P : Grouping.Params K} {r : Nat} {ch 
     rw [hraw]
     exact C08.assign_classes_eq_components (C08.tree_conns A ho S h).2
 
+/-- **A frame without any peak**: the grouping stage returns no connection, an empty instance map
+and no instance — for every `min_instance_peaks`, any score tables. -/
+theorem grouping_empty {lsa : Lsa K} {P : Grouping.Params K} {r : Nat} {scores : List (Mat (Option K))}
+    (A : Arbo P.edges r) (ho : toposort P.edges = some P.order) (S : LsaOK false lsa P [] scores) :
+    ∃ out, groupSample false lsa P [] scores = .ok out ∧ out.conns = [] ∧ out.assign = [] ∧
+      out.insts = [] := by
+  have hC : ∀ k e, edgeCost ([] : List Nat) scores k e = [] := by
+    intro k e
+    simp [edgeCost, costMatrix, edgeDims, nodePeaks, mkMat]
+  obtain ⟨out, h⟩ := C08.grouping_total_partial A ho S (fun k e _ => ⟨[], by
+    rw [hC]
+    exact ⟨⟨by simp, by simp⟩, by simp, by simp [nRows, nCols], by simp⟩⟩)
+  have hconns : out.conns = [] := by
+    apply List.eq_nil_iff_forall_not_mem.mpr
+    intro c hc
+    obtain ⟨k, e, m, he, hm, _⟩ := (C08.min_score_filtered A ho S h c).mp hc
+    have := (C08.matches_one_to_one S h he).inRange m hm
+    rw [hC] at this
+    simp [nRows] at this
+  obtain ⟨_, _, ha, hi⟩ := groupSample_ok h
+  have hassign : out.assign = [] := by
+    rw [ha, hconns]
+    unfold assignConnections
+    cases minPeaksThreshold P.minPeaks P.nNodes <;> simp [pairs, assignRaw, filterSmall]
+  refine ⟨out, h, hconns, hassign, ?_⟩
+  rw [hconns, hassign] at hi
+  simp [makeInstances, checkConns, sortedIds, nextId] at hi
+  exact hi.symm
+
 end SleapVerif.BottomUp
